@@ -562,13 +562,21 @@ Proof.
   destruct (wf_event_inv ev He) as [Hd [Hold [Hnew Hsame]]].
   destruct (is_clean_abs_inv _ Hd) as [d [Pd [Ed Sd]]].
   unfold all_outside, old_key, new_key in Ho. rewrite Es, Sd in Ho.
-  unfold sync_process. rewrite En, Ed, under_abs by auto.
-  destruct (lprefix s d) eqn:D; [|reflexivity]. simpl.
-  destruct (ev_old ev) as [o|].
-  - exfalso. simpl in Ho. rewrite lprefix_snoc, D in Ho. discriminate.
-  - destruct (ev_new ev) as [n|]; [|reflexivity]. exfalso.
-    apply String.eqb_eq in Hsame. rewrite <- Hsame, Sd in Ho.
-    simpl in Ho. rewrite lprefix_snoc, D in Ho. discriminate.
+  unfold sync_process. rewrite En.
+  destruct (ev_old ev) as [o|]; destruct (ev_new ev) as [n|]; simpl in Ho, Hnew, Hsame |- *.
+  - apply andb_true_iff in Hnew. destruct Hnew as [_ Cp].
+    destruct (is_clean_abs_inv _ Cp) as [p [Pp [Ep Sp]]].
+    rewrite Sp in Ho. rewrite Ep, Ed, !under_abs by auto.
+    apply andb_true_iff in Ho. destruct Ho as [O1 O2]. apply negb_true_iff in O1, O2.
+    rewrite lprefix_snoc in O1, O2. apply orb_false_iff in O1, O2.
+    destruct O1 as [O1 _]. destruct O2 as [O2 _]. rewrite O1, O2. reflexivity.
+  - rewrite andb_true_r in Ho. apply negb_true_iff in Ho. rewrite lprefix_snoc in Ho.
+    apply orb_false_iff in Ho. destruct Ho as [O1 _].
+    rewrite Ed, under_abs by auto. rewrite O1. reflexivity.
+  - apply String.eqb_eq in Hsame. rewrite <- Hsame, Sd in Ho. rewrite <- Hsame, Ed, !under_abs by auto.
+    apply negb_true_iff in Ho. rewrite lprefix_snoc in Ho.
+    apply orb_false_iff in Ho. destruct Ho as [O1 _]. rewrite O1. reflexivity.
+  - destruct (negb _ && _); reflexivity.
 Qed.
 
 Theorem replicate_outside_ignored : forall c k ev,
@@ -608,39 +616,39 @@ Theorem replicate_no_echo : forall c key ev,
 Proof. intros c key ev H1 H2. unfold replicate. rewrite H1, H2. reflexivity. Qed.
 
 (* ---------- C36: mirror, genProcessFunction ---------- *)
-Theorem sync_mirror_partial : forall c ev,
+Theorem sync_mirror : forall c ev,
   wf_config c = true -> wf_event ev = true -> incremental c = false ->
-  touches_root c ev = false -> rename_in c ev = false ->
+  touches_root c ev = false ->
   sync_process c ev = mirror_spec c ev.
 Proof.
-  intros c ev Hc He Hi Hroot Hrin.
+  intros c ev Hc He Hi Hroot.
   destruct (wf_config_inv c Hc) as [s [t [Ps [Pt [Es [Et [En [_ Etgt]]]]]]]].
   destruct (wf_event_inv ev He) as [Hd [Hold [Hnew Hsame]]].
   destruct (is_clean_abs_inv _ Hd) as [d [Pd [Ed Sd]]].
   unfold touches_root, old_key, new_key in Hroot. rewrite Es, Sd in Hroot.
-  unfold rename_in, old_key, new_key in Hrin. rewrite Sd in Hrin.
   unfold sync_process, mirror_spec, build_key, inside. rewrite En, Sd, Es, Hi, Ed.
   rewrite under_abs by auto.
-  destruct (ev_old ev) as [o|]; destruct (ev_new ev) as [n|]; simpl in Hold, Hnew, Hroot, Hrin |- *.
-  - (* update / rename *)
+  destruct (ev_old ev) as [o|]; destruct (ev_new ev) as [n|]; simpl in Hold, Hnew, Hroot |- *.
+  - (* update / rename within, out of, into the subtree *)
     apply andb_true_iff in Hnew. destruct Hnew as [Pn Cp].
     destruct (is_clean_abs_inv _ Cp) as [p [Pp [Ep Sp]]].
-    rewrite Sp in Hroot, Hrin |- *. rewrite Ep.
+    rewrite Sp in Hroot |- *. rewrite Ep.
     apply orb_false_iff in Hroot. destruct Hroot as [R1 R2].
     destruct (inside_snoc s d (e_name o) R1) as [U1 I1].
     destruct (inside_snoc s p (e_name n) R2) as [U2 I2].
-    unfold inside, inside_b in *. rewrite Es in Hrin.
+    unfold inside, inside_b in *.
     rewrite !child_abs by auto.
     rewrite !under_abs by (auto using plain_last).
-    rewrite I1, I2, U1, U2. rewrite I1, I2 in Hrin.
-    destruct (lprefix s d) eqn:D; simpl.
-    + destruct (lprefix s p) eqn:P; simpl.
-      * rewrite abs_len_mono by auto.
-        rewrite !(map_key c s t) by (auto using plain_last; rewrite ?U1, ?U2; auto).
-        reflexivity.
-      * rewrite !(map_key c s t) by (auto using plain_last; rewrite ?U1, ?U2; auto).
-        reflexivity.
-    + simpl in Hrin. rewrite Hrin. reflexivity.
+    rewrite I1, I2, U1, U2.
+    destruct (lprefix s d) eqn:D; destruct (lprefix s p) eqn:P; simpl.
+    + rewrite abs_len_mono by auto.
+      rewrite !(map_key c s t) by (auto using plain_last; rewrite ?U1, ?U2; auto).
+      reflexivity.
+    + rewrite !(map_key c s t) by (auto using plain_last; rewrite ?U1, ?U2; auto).
+      reflexivity.
+    + rewrite !(map_key c s t) by (auto using plain_last; rewrite ?U1, ?U2; auto).
+      reflexivity.
+    + reflexivity.
   - (* delete *)
     rewrite orb_false_r in Hroot.
     destruct (inside_snoc s d (e_name o) Hroot) as [U1 I1].
@@ -708,11 +716,7 @@ Proof.
   - destruct (_ || _); reflexivity.
 Qed.
 
-(* ---------- the full statements and their refutations ---------- *)
-Definition mirror_full_sync : Prop := forall c ev,
-  wf_config c = true -> wf_event ev = true -> incremental c = false ->
-  touches_root c ev = false -> sync_process c ev = mirror_spec c ev.
-
+(* ---------- the full statement for Replicate and its refutation ---------- *)
 Definition mirror_full_replicate : Prop := forall c ev,
   wf_config c = true -> wf_event ev = true -> incremental c = false ->
   ev_from_other ev && sink_is_filer c = false ->
@@ -730,42 +734,112 @@ Definition w_update : event :=
   {| ev_dir := "/data"; ev_old := Some (w_entry "x"); ev_new := Some (w_entry "x");
      ev_new_parent := "/data"; ev_delete_chunks := false; ev_from_other := false; ev_sigs := [] |}.
 
-Theorem sync_mirror_refuted : ~ mirror_full_sync.
-Proof.
-  intro H. specialize (H w_cfg w_rename_in eq_refl eq_refl eq_refl eq_refl).
-  vm_compute in H. discriminate.
-Qed.
-
 Theorem replicate_mirror_refuted : ~ mirror_full_replicate.
 Proof.
   intro H. specialize (H w_cfg w_update eq_refl eq_refl eq_refl eq_refl eq_refl).
   vm_compute in H. discriminate.
 Qed.
 
-(* the triggers hold on the witnesses, and only the named trigger *)
-Lemma witnesses_triggers :
-  rename_in w_cfg w_rename_in = true /\ replicate_unsafe w_cfg w_update = true /\
-  rename_in w_cfg w_update = false.
-Proof. vm_compute. auto. Qed.
+Lemma witnesses_triggers : replicate_unsafe w_cfg w_update = true.
+Proof. vm_compute. reflexivity. Qed.
+
+(* the former witness of the dropped move into the subtree now creates the entry *)
+Example rename_in_creates :
+  sync_process w_cfg w_rename_in = Do (Create "/backup/x" (w_entry "x")).
+Proof. vm_compute. reflexivity. Qed.
 
 (* ---------- LocalSink ---------- *)
-(* UpdateEntry never looks at the destination: it rewrites the old key *)
-Theorem local_update_is_create : forall t key np e dc,
-  is_multipart key = false ->
-  fst (local_do t (Update key np e dc)) = fst (local_create t key e).
+(* UpdateEntry of an entry that stays where it is rewrites the file *)
+Theorem local_update_in_place : forall t key np e dc,
+  is_multipart key = false -> join [np; e_name e] = key ->
+  local_do t (Update key np e dc) =
+  (fst (local_create t key e), (local_exists t key, snd (local_create t key e))).
 Proof.
-  intros t key np e dc Hm. unfold local_do. rewrite Hm.
+  intros t key np e dc Hm Hj. unfold local_do. rewrite Hm, Hj, String.eqb_refl. simpl.
   destruct (local_create t key e). reflexivity.
 Qed.
 
-(* so an entry renamed inside the watched subtree, whose old copy exists in the
-   backup directory, stays where it was: the plan stops after UpdateEntry *)
-Theorem local_rename_stays : forall t key np n dc d cr,
-  is_multipart key = false -> local_exists t key = true ->
-  fst (exec_plan _ local_do t (UpdateOr (Update key np n dc) d cr)) = fst (local_create t key n).
+(* a moved entry: UpdateEntry reports "not found" and touches nothing, so the
+   plan deletes the old key and creates the new one, on every tree *)
+Theorem local_move : forall t key np n dc isdir cr,
+  is_multipart key = false -> join [np; e_name n] <> key ->
+  fst (exec_plan _ local_do t (UpdateOr (Update key np n dc) (Delete key isdir false) cr)) =
+  fst (local_do (local_delete t key) cr).
 Proof.
-  intros t key np n dc d cr Hm Hex. unfold exec_plan, local_do. rewrite Hm, Hex.
-  destruct (local_create t key n). reflexivity.
+  intros t key np n dc isdir cr Hm Hj. unfold exec_plan.
+  assert (E : local_do t (Update key np n dc) = (t, (false, false))).
+  { unfold local_do. rewrite Hm. apply String.eqb_neq in Hj. rewrite Hj. reflexivity. }
+  rewrite E. simpl. destruct (local_do (local_delete t key) cr) as [t' [f e]]. reflexivity.
+Qed.
+
+(* joining the mapped parent with a plain name is the mapped child *)
+Lemma join_child : forall l x, forallb plain l = true -> plain x = true ->
+  join [abs l; x] = abs (l ++ [x]).
+Proof.
+  intros l x Hl Hx. rewrite join2 by (auto using good_plain). rewrite segs_plain by auto. reflexivity.
+Qed.
+
+Lemma abs_inj : forall a b, forallb plain a = true -> forallb plain b = true -> abs a = abs b -> a = b.
+Proof.
+  intros a b Ha Hb E. destruct (segs_abs a Ha) as [A _]. destruct (segs_abs b Hb) as [B _].
+  rewrite <- A, <- B, E. reflexivity.
+Qed.
+
+Lemma forallb_skipn : forall (f : string -> bool) n l, forallb f l = true -> forallb f (skipn n l) = true.
+Proof.
+  intros f n. induction n as [|n IH]; intros l H; [exact H|].
+  destruct l as [|x l]; [reflexivity|]. simpl in H. apply andb_true_iff in H. destruct H. simpl. apply IH. auto.
+Qed.
+
+(* FULL, all trees: a rename inside the watched subtree through genProcessFunction
+   into a LocalSink removes the mapped old path and creates the mapped new path *)
+Theorem local_sync_move : forall c ev o n t,
+  wf_config c = true -> wf_event ev = true -> incremental c = false ->
+  touches_root c ev = false ->
+  ev_old ev = Some o -> ev_new ev = Some n ->
+  let ok := segs (ev_dir ev) ++ [e_name o] in
+  let nk := segs (ev_new_parent ev) ++ [e_name n] in
+  inside c ok = true -> inside c nk = true -> ok <> nk ->
+  is_multipart (map_path c ok) = false ->
+  fst (exec_plan _ local_do t (sync_process c ev)) =
+  fst (local_create (local_delete t (map_path c ok)) (map_path c nk) n).
+Proof.
+  intros c ev o n t Hc He Hi Hroot Ho Hn ok nk Iok Ink Hne Hm.
+  rewrite (sync_mirror c ev Hc He Hi Hroot). unfold mirror_spec. rewrite Ho, Hn.
+  fold ok. fold nk. rewrite Iok, Ink.
+  destruct (wf_config_inv c Hc) as [s [tt [Ps [Pt [Es [Et [_ [_ Etgt]]]]]]]].
+  destruct (wf_event_inv ev He) as [Hd [Hold [Hnew _]]].
+  rewrite Ho in Hold. rewrite Hn in Hnew. simpl in Hold, Hnew.
+  apply andb_true_iff in Hnew. destruct Hnew as [Pn Cp].
+  destruct (is_clean_abs_inv _ Hd) as [d [Pd [Ed Sd]]].
+  destruct (is_clean_abs_inv _ Cp) as [p [Pp [Ep Sp]]].
+  assert (J : join [map_path c (segs (ev_new_parent ev)); e_name n] = map_path c nk).
+  { unfold nk. rewrite Sp. unfold map_path. rewrite Es, Et.
+    unfold inside in Ink. rewrite Es in Ink. apply andb_true_iff in Ink. destruct Ink as [L _].
+    unfold nk in L. rewrite Sp in L.
+    assert (Lp : lprefix s p = true).
+    { unfold touches_root, new_key in Hroot. rewrite Hn, Es, Sp in Hroot. simpl in Hroot.
+      apply orb_false_iff in Hroot. destruct Hroot as [_ R2].
+      destruct (inside_snoc s p (e_name n) R2) as [U _]. rewrite <- U. exact L. }
+    destruct (lprefix_inv _ _ Lp) as [r Hr]. rewrite Hr in Pp |- *.
+    rewrite <- app_assoc, !skipn_app_len.
+    rewrite forallb_app in Pp. apply andb_true_iff in Pp. destruct Pp as [_ Pr].
+    rewrite join_child by (auto; rewrite forallb_app, Pt, Pr; reflexivity).
+    rewrite <- app_assoc. reflexivity. }
+  assert (Hj : join [map_path c (segs (ev_new_parent ev)); e_name n] <> map_path c ok).
+  { rewrite J. intro E. apply Hne. unfold map_path in E. rewrite Es, Et in E.
+    unfold inside in Iok, Ink. rewrite Es in Iok, Ink.
+    apply andb_true_iff in Iok. destruct Iok as [L1 _]. apply andb_true_iff in Ink. destruct Ink as [L2 _].
+    destruct (lprefix_inv _ _ L1) as [r1 H1]. destruct (lprefix_inv _ _ L2) as [r2 H2].
+    rewrite H1, H2 in E |- *. rewrite !skipn_app_len in E.
+    assert (P1 : forallb plain ok = true) by (unfold ok; rewrite Sd; auto using plain_last).
+    assert (P2 : forallb plain nk = true) by (unfold nk; rewrite Sp; auto using plain_last).
+    rewrite H1 in P1. rewrite H2 in P2. rewrite forallb_app in P1, P2.
+    apply andb_true_iff in P1. destruct P1 as [_ P1]. apply andb_true_iff in P2. destruct P2 as [_ P2].
+    apply abs_inj in E; [|rewrite forallb_app, Pt; auto|rewrite forallb_app, Pt; auto].
+    apply app_inv_head in E. congruence. }
+  rewrite (local_move t _ _ n _ _ _ Hm Hj). unfold local_do.
+  destruct (local_create (local_delete t (map_path c ok)) (map_path c nk) n). reflexivity.
 Qed.
 
 Definition w_lcfg : config :=
@@ -777,14 +851,14 @@ Definition w_lrename : event :=
   {| ev_dir := "/data"; ev_old := Some (w_entry "a"); ev_new := Some (w_entry "b");
      ev_new_parent := "/data"; ev_delete_chunks := true; ev_from_other := false; ev_sigs := [] |}.
 
-Theorem local_mirror_refuted :
+(* the former witness history: the file set now follows the reference *)
+Example local_rename_history :
   wf_config w_lcfg = true /\ forallb wf_event [w_lcreate; w_lrename] = true /\
-  files_of (fst (run_local w_lcfg [] [w_lcreate; w_lrename])) = ["/t/a"%string] /\
+  files_of (fst (run_local w_lcfg [] [w_lcreate; w_lrename])) = ["/t/b"%string] /\
   spec_files w_lcfg [w_lcreate; w_lrename] = ["/t/b"%string].
 Proof. vm_compute. auto. Qed.
 
-(* create / delete / in-place update of one file on a tree that has the
-   directories: the file set follows the reference *)
+(* create / delete / in-place update of one file: the file set follows the reference *)
 Example local_single_ops :
   let evs := [w_lcreate; w_update; w_lcreate;
               {| ev_dir := "/data"; ev_old := Some (w_entry "x"); ev_new := None; ev_new_parent := "";
